@@ -104,9 +104,53 @@ def read_repo(path):
 _src_cache = {}
 
 
+def expanded_source():
+    """The compiler's own expansion of the pdf crate (derive output included), produced from REPO's
+    working tree; cached on disk under the hash of every source file that feeds it."""
+    import hashlib, subprocess, tempfile, shutil
+    h = hashlib.sha256()
+    for base in ('pdf/src', 'pdf_derive/src', 'pdf/Cargo.toml', 'pdf_derive/Cargo.toml', 'Cargo.lock'):
+        root = os.path.join(REPO, base)
+        if os.path.isfile(root):
+            h.update(open(root, 'rb').read())
+            continue
+        for dp, dn, fn in sorted(os.walk(root)):
+            dn.sort()
+            for f in sorted(fn):
+                fp = os.path.join(dp, f)
+                h.update(fp[len(REPO):].encode())
+                h.update(open(fp, 'rb').read())
+    cache_root = os.path.join(os.path.dirname(os.path.dirname(os.path.abspath(__file__))), '.cache')
+    os.makedirs(cache_root, exist_ok=True)
+    cf = os.path.join(cache_root, 'expanded-%s.rs' % h.hexdigest()[:24])
+    if os.path.exists(cf):
+        return open(cf, encoding='utf-8').read()
+    tmp = tempfile.mkdtemp(prefix='verif_expand_')
+    try:
+        subprocess.run(['rsync', '-a', '--exclude', 'target', '--exclude', '.git', '--exclude', 'files',
+                        REPO.rstrip('/') + '/', tmp + '/'], check=True)
+        env = dict(os.environ, RUSTC_BOOTSTRAP='1', CARGO_TARGET_DIR=os.path.join(cache_root, 'expand-target'),
+                   CARGO_NET_OFFLINE='true')
+        p = subprocess.run(['cargo', 'rustc', '--offline', '--lib', '-p', 'pdf', '--', '-Zunpretty=expanded'],
+                           cwd=tmp, env=env, capture_output=True, text=True, timeout=900)
+        if p.returncode != 0 or len(p.stdout) < 1000:
+            raise Undecided('macro expansion failed: ' + p.stderr[-1500:])
+        # keep only the newest few cache files
+        olds = sorted((f for f in os.listdir(cache_root) if f.startswith('expanded-')),
+                      key=lambda f: os.path.getmtime(os.path.join(cache_root, f)))
+        for f in olds[:-4]:
+            os.unlink(os.path.join(cache_root, f))
+        with open(cf + '.tmp%d' % os.getpid(), 'w', encoding='utf-8') as f:
+            f.write(p.stdout)
+        os.replace(cf + '.tmp%d' % os.getpid(), cf)
+        return p.stdout
+    finally:
+        shutil.rmtree(tmp, ignore_errors=True)
+
+
 def load_src(path):
     if path not in _src_cache:
-        src = read_repo(path)
+        src = expanded_source() if path == 'expanded:pdf' else read_repo(path)
         _src_cache[path] = (src, rscan.code_mask(src))
     return _src_cache[path]
 
@@ -297,6 +341,10 @@ def assemble(unit_dir, devs=None, with_canaries=True):
         key = mt.group(1)
         if key == 'DEVIATIONS':
             return render_devs(unit, devs)
+        if key == 'PDFERROR':
+            return render_pdferror()
+        if key.startswith('INCLUDE '):
+            return open(os.path.join(os.path.dirname(unit_dir), key.split(None, 1)[1]), encoding='utf-8').read()
         if key not in rendered:
             raise Undecided('template marker %s has no item' % key)
         used.add(key)
@@ -329,6 +377,63 @@ def assemble(unit_dir, devs=None, with_canaries=True):
     meta = {'unit': unit, 'ranges': ranges, 'labels': labels, 'rewrites': log, 'raws': raws,
             'rendered': rendered}
     return text, meta
+
+
+KEEP_TYPES = {'usize', 'u64', 'u32', 'u8', 'i32', '[u8; 2]', "&'static str", 'ObjNr', 'Box<PdfError>'}
+
+
+def render_pdferror():
+    """R3: twin of `enum PdfError`, generated from the real variant list of pdf/src/error.rs.
+    Payload fields of plain integer / static-str type are kept, every other payload (String, Context,
+    io::Error, dyn Error, Arc) is dropped; `Try`, `FromPrimitive` keep their boxed source, `Shared` gets one."""
+    src, m = load_src('pdf/src/error.rs')
+    try:
+        s, ob, e = rscan.find_block(src, m, r'^pub enum PdfError$')
+    except AnchorLost as ex:
+        raise Undecided('anchor lost: enum PdfError: %s' % ex)
+    body = strip_comments(src[ob + 1:e - 1])
+    body = re.sub(r'#\[[^\]]*\]', '', body)
+    bm = rscan.code_mask(body)
+    # split at depth-0 commas
+    parts, depth, last = [], 0, 0
+    for i, ch in enumerate(body):
+        if not bm[i]:
+            continue
+        if ch in '({[':
+            depth += 1
+        elif ch in ')}]':
+            depth -= 1
+        elif ch == ',' and depth == 0:
+            parts.append(body[last:i])
+            last = i + 1
+    parts.append(body[last:])
+    out = ['pub enum PdfError {']
+    for p in parts:
+        p = p.strip()
+        if not p:
+            continue
+        mm = re.match(r'(\w+)\s*(\{(.*)\})?\s*$', p, re.S)
+        if not mm:
+            raise Undecided('cannot parse PdfError variant: %r' % p[:80])
+        name, fields = mm.group(1), mm.group(3)
+        keep = []
+        if fields:
+            for f in re.split(r',(?![^<\[]*[>\]])', fields):
+                f = f.strip()
+                if not f:
+                    continue
+                fn_, _, ty = f.partition(':')
+                ty = ' '.join(ty.split())
+                if fn_.strip() in ('file', 'line', 'column', 'context'):
+                    continue
+                if ty in KEEP_TYPES:
+                    keep.append('%s: %s' % (fn_.strip(), 'u64' if ty == 'ObjNr' else ty))
+                elif name == 'Shared' and fn_.strip() == 'source':
+                    keep.append('source: Box<PdfError>')
+        out.append('    %s%s,' % (name, (' { ' + ', '.join(keep) + ' }') if keep else ''))
+    out.append('}')
+    out.append('pub type Result<T, E=PdfError> = core::result::Result<T, E>;')
+    return '\n'.join(out) + '\n'
 
 
 def render_devs(unit, devs):
